@@ -109,6 +109,9 @@ func c01(c *core.Check) {
 			agg.fail("render-typechecks", k, fmt.Sprintf("under [%s]: %s", r.R.Valuation, d))
 			break
 		}
+		if r.U.Def == "StructLikeDeepEqualField" || r.U.Def == "StructLikeWriteField" {
+			c01valueElems(agg, r)
+		}
 		used := qualifiersUsed(r.P.File)
 		decl := map[string]bool{}
 		for _, l := range r.R.Libs {
@@ -233,7 +236,9 @@ func c01(c *core.Check) {
 			}
 		}
 	}
-	agg.flush(c, map[string]string{"render-parses": "parses as Go", "render-typechecks": "no label/goto/unused/redeclared/missing-return diagnostic", "imports-balanced": "declared libraries = used qualifiers"})
+	agg.flush(c, map[string]string{"render-parses": "parses as Go", "render-typechecks": "no label/goto/unused/redeclared/missing-return diagnostic", "imports-balanced": "declared libraries = used qualifiers",
+		"value-elements-by-address": "container elements reach DeepEqual by address iff value_type_in_container"})
+	c.Min("value-elements-by-address", 2)
 	c.Min("render-parses", 25)
 	c.Min("reserved-method-name", 8)
 	c01keywords(c)
@@ -346,6 +351,7 @@ func c01qualifiers(c *core.Check) {
 	pkgIdentityByPath(c)
 	c01mapKeyRepresentable(c)
 	c01fastgoPerFile(c)
+	c01fastgoValueElems(c)
 }
 
 type sync2 = sync.Mutex
